@@ -374,6 +374,14 @@ func checkC13(c *core.Ctx) {
 			if r.Intn(2) == 0 {
 				in.Key = pool[r.Intn(len(pool))].String() // a small pool: restatements and returns are frequent
 			}
+			if r.Intn(4) == 0 {
+				// free metadata that is spelled like the setting (text conv leaves such an entry behind, a hand may
+				// edit one of the two): in an instances document the key is the `key` field and nothing else
+				in.Meta = map[string]string{"key": sup[r.Intn(len(sup))].String()}
+				if r.Intn(3) == 0 {
+					in.Meta["txt"] = "modulation"
+				}
+			}
 			p.Inst = append(p.Inst, in)
 		}
 		var f model.Flags
